@@ -205,8 +205,10 @@ Fixpoint combine_chunks (t : cframe) (rows : list row) (s : nat) (is : list nat)
   end.
 Definition Combine (t : cframe) (rows : list row) : res cframe :=
   let s := cscratch t in
-  let nchunk := ((length rows + s - 1) / s)%nat in
-  combine_chunks t rows s (seq 0 nchunk).
+  if Nat.eqb s 0 then Panic            (* integer divide by zero in nchunk *)
+  else
+    let nchunk := ((length rows + s - 1) / s)%nat in
+    combine_chunks t rows s (seq 0 nchunk).
 
 (* Compact(), combiner.go:211-223: `for i, n := range c.hits` *)
 Fixpoint compact_loop (is : list nat) (slots : list row) (hits : list Z) (j : nat)
